@@ -79,6 +79,14 @@ func (r *replica) updateLatestOffset(offset int64) (updated bool) {
 	return
 }
 
+// resetLatestOffset sets the replica's latest log offset regardless of the
+// current one.
+func (r *replica) resetLatestOffset(offset int64) {
+	r.mu.Lock()
+	r.offset = offset
+	r.mu.Unlock()
+}
+
 // getLatestOffset returns the replica's latest log offset.
 func (r *replica) getLatestOffset() int64 {
 	r.mu.RLock()
@@ -847,7 +855,16 @@ func (p *partition) becomeLeader(epoch uint64) error {
 		// Also update the protobuf ISR list for persistence.
 		p.Isr = append(p.Isr, p.srv.config.Clustering.ServerID)
 	}
-	rep.updateLatestOffset(p.log.NewestOffset())
+	// What the replicas were known to hold is from an earlier term of this
+	// server as leader (if any): since then it, and they, may have truncated
+	// their logs. Start over, or messages appended from now on would count as
+	// replicated, and be committed and acknowledged, up to the stale offsets.
+	for id, r := range p.isr {
+		if id != p.srv.config.Clustering.ServerID {
+			r.resetLatestOffset(-1)
+		}
+	}
+	rep.resetLatestOffset(p.log.NewestOffset())
 
 	// Re-evaluate the high watermark before serving anything. It is only
 	// checkpointed periodically and on close, so after a restart or a resume
